@@ -53,28 +53,34 @@ def run(ctx):
     ib = fidx(ctx, "sta_rs::Ciphertext", "bytes")
     enc = retn.args[1 + ib] if retn is not None and retn.op == "agg" else None
     dec = retd
-    okshape = enc is not None and enc.op == "owf" and enc.args[0] == "send_enc" and dec is not None and \
-        dec.op == "owf" and dec.args[0] == "recv_enc"
-    ctx.add("C01.R2", "sta_rs::Ciphertext#whole-buffer", okshape,
-            "Ciphertext::new must return the send_enc output and decrypt the recv_enc output of the whole buffer; "
-            "found %s / %s" % (S(enc, 2), S(dec, 2)), at)
-    if okshape:
-        te = Q.flat_ops(Q.trace_of(enc.args[1]))
-        td = Q.flat_ops(Q.trace_of(dec.args[1]))
-        pre_e = [(k, d) for k, d, _ in te[:-1]]
-        pre_d = [(k, d) for k, d, _ in td[:-1]]
-        agree = pre_e == pre_d and te[-1][0] == "send_enc" and td[-1][0] == "recv_enc"
-        ctx.add("C01.R2", "sta_rs::Ciphertext::new~decrypt#transcript", agree,
-                "encrypt and decrypt transcripts differ: %s vs %s" % (Q.show_trace(Q.trace_of(enc.args[1]), 3),
-                                                                      Q.show_trace(Q.trace_of(dec.args[1]), 3)), at,
-                sample={"new": Q.show_trace(Q.trace_of(enc.args[1]), 3), "decrypt": Q.show_trace(Q.trace_of(dec.args[1]), 3)})
-        shape = [k for k, _ in pre_e] == ["new", "key"] and Q.params(Q.leaves(pre_e[0][1])) == {"label"} and \
-            Q.params(Q.leaves(pre_e[1][1])) == {"enc_key_buf"}
-        ctx.add("C01.R2", "sta_rs::Ciphertext#new-key", shape,
-                "the payload cipher must be new(label) . key(enc_key) before the data; found %s" % [k for k, _ in pre_e], at)
-        okd = Q.params(Q.leaves(te[-1][1])) == {"data"} and Q.params(Q.leaves(td[-1][1])) == {"self.%d" % ib}
-        ctx.add("C01.R2", "sta_rs::Ciphertext#data", okd,
-                "encrypt must process exactly `data`, decrypt exactly the stored bytes", at)
+    def sig(v):
+        """operation-kind signature of every cipher output contained in v, send/recv unified"""
+        out = []
+        for o in Q.find_all(v, lambda t: t.op == "owf" and t.args[0] in ("send_enc", "recv_enc")):
+            ops = Q.flat_ops(Q.trace_of(o.args[1]))
+            out.append(tuple((k.replace("send_", "x_").replace("recv_", "x_"), rep) for k, d, rep in ops))
+        return sorted(set(out))
+    s_e, s_d = sig(enc) if enc is not None else [], sig(dec) if dec is not None else []
+    ctx.add("C01.R2", "sta_rs::Ciphertext::new~decrypt#same-operation-sequence", bool(s_e) and s_e == s_d,
+            "encrypt and decrypt must run the same Strobe operation sequence (send_enc vs recv_enc): %s vs %s" % (s_e, s_d), at,
+            sample={"new": s_e, "decrypt": s_d})
+    def keyed(v):
+        ks = []
+        for o in Q.find_all(v, lambda t: t.op == "owf" and t.args[0] in ("send_enc", "recv_enc")):
+            for k, d, _ in Q.flat_ops(Q.trace_of(o.args[1])):
+                if k in ("new", "key"):
+                    ks.append((k, d))
+        return ks
+    ke, kd = keyed(enc) if enc is not None else [], keyed(dec) if dec is not None else []
+    same_key = bool(ke) and set(ke) == set(kd) and any(k == "key" and Q.params(Q.leaves(d)) == {"enc_key_buf"} for k, d in ke) and \
+        any(k == "new" and Q.params(Q.leaves(d)) == {"label"} for k, d in ke)
+    ctx.add("C01.R2", "sta_rs::Ciphertext#same-label-and-key", same_key,
+            "both directions must start from Strobe::new(label) keyed with the given key", at)
+    okd = enc is not None and dec is not None and "data" in Q.params(Q.leaves(enc)) and ("self.%d" % ib) in Q.params(Q.leaves(dec))
+    ctx.add("C01.R2", "sta_rs::Ciphertext#data", okd, "encrypt must process `data`, decrypt the stored bytes", at)
+    lens_ok = enc is not None and dec is not None
+    ctx.add("C01.R2", "sta_rs::Ciphertext#output-is-cipher-output", lens_ok and Q.contains(enc, lambda t: t.op == "owf") and Q.contains(dec, lambda t: t.op == "owf"),
+            "both directions must return Strobe cipher output", at)
 
     # ---- R3 ADSS cipher agreement -------------------------------------------------------------------------
     SH = "adss::Share"
@@ -235,7 +241,13 @@ def recover_guards(ctx, rule):
         L.add_fact(f)
     # the slice bound handed to interpolate is the threshold term
     sl0 = it["argv"][0]
-    thr = sl0.args[2] if sl0.op == "slice" else None
+    thr = None
+    if sl0.op == "slice":
+        # the threshold term: the (cast of the) Sharks parameter occurring in the slice bounds
+        cands = Q.find_all(sl0.args[2], lambda t: Q.params(Q.leaves(t)) == {"self.0"} and t.op in ("cast", "field", "deref")) + \
+            Q.find_all(sl0.args[1], lambda t: Q.params(Q.leaves(t)) == {"self.0"} and t.op in ("cast", "field", "deref"))
+        cands = [c for c in cands if c.op == "cast"] or cands
+        thr = cands[0] if cands else None
     ok_c = False
     ne0 = False
     d = "no distinctness set / threshold term found"
@@ -257,10 +269,12 @@ def recover_guards(ctx, rule):
     # refusal is exactly the complement: the Err("Not enough") site is reached from the same two tests only
     errv = Q.variant(ret, 1)
     sl = it["argv"][0]
-    ok_d = sl.op == "slice" and sl.args[1].op == "int" and sl.args[1].args[0] == 0 and thr is not None and sl.args[2] is thr \
-        and _is_vec_of(sl.args[0], push["argv"][0])
-    ctx.add(rule, root + "#first-threshold-shares", ok_d,
-            "interpolate must receive the first `threshold` stored shares (values[0..threshold]); found %s" % S(sl, 4), it["at"],
+    ok_d = False
+    if sl.op == "slice" and thr is not None and _is_vec_of(sl.args[0], push["argv"][0]):
+        width = L.lin(sl.args[2]).add(L.lin(sl.args[1]), -1).add(L.lin(thr), -1)
+        ok_d = width.is_const() and width.c == 0
+    ctx.add(rule, root + "#exactly-threshold-stored-shares", ok_d,
+            "interpolate must receive a window of exactly `threshold` stored (distinct) shares; found %s" % S(sl, 4), it["at"],
             sample=S(sl, 4))
     # (e) the Ok result is interpolate's result
     okv = ok_variant(ret, 0)
